@@ -10,7 +10,9 @@ import numpy as np
 from harness import circgen as cg, oracle_net as on, cell_corr
 from harness import circuit_view_corr as vc
 from harness import subst_sem_corr as ssc
+from harness import resolve_sem_corr as rsc
 
+RSNAPS = []     # resolve cases for the per-case tie of the loop theorem C10_resolve_function (harness/resolve_sem_corr.py)
 SNAPS = []      # substitute cases for the per-case tie of the theorems C10_substitute_* (harness/subst_sem_corr.py)
 
 # copy / pickle / eliminate_1to1_forks over the edit model Model/Circuit.v (substitute / resolve: differential testing below)
@@ -31,6 +33,11 @@ THEOREMS_SUBST = ['C10_substitute_split', 'C10_substitute_pre_glue', 'C10_pure_p
                   'C10_substitute_d22_refuted', 'C10_substitute_d21_refuted', 'C10_substitute_state_order_refuted',
                   'C10_substitute_pure_ports_needed']
 THEOREMS = THEOREMS + THEOREMS_SUBST
+# resolve_tlib_cells as ONE theorem over its loop (Properties/C10.v section 7; Proofs/CircuitResolveDang.v: clean-up with unresolved
+# library instances, CircuitResolveGlue.v: one substitution among unresolved instances, CircuitResolveSem.v: the loop)
+THEOREMS_RESOLVE = ['C10_resolve_function', 'C10_resolve_function_checked', 'C10_lib_total_b_sound', 'C10_resolve_ports_kept',
+                    'C10_rsol_no_lib', 'C10_resolve_step', 'C10_resolve_trace_is_loop', 'C10_substitute_ids_fresh', 'C10_resolve_example']
+THEOREMS += [t for t in THEOREMS_RESOLVE]
 # library clause (Properties/C10Lib.v): every cell definition of the five libraries x {all pins connected (every name), every
 # single pin unconnected (first name), no output connected (every name)}; exceptions = known findings D15 / D21 / D22, each
 # with a *_refuted theorem
@@ -172,9 +179,12 @@ def resolve_cell(lib, tlib, kind, rng):
         before_names = s_names(c)
         try:
             r = c.copy()
+            snap = rsc.snapshot(r, tlib)
             r.resolve_tlib_cells(tlib)
         except Exception as e:
             return desc, f'resolve_tlib_cells raises {type(e).__name__}: {e}'
+        snap['desc'] = dict(desc)
+        RSNAPS.append(rsc.finish(snap, r))
         if any(n.kind in tlib.cells for n in r.nodes):
             return desc, 'library cells remain after resolving'
         after_names = s_names(r)
@@ -466,6 +476,80 @@ def substitute_sem_correspondence(ck, rng):
                 found_input=False)
 
 
+def resolve_sem_correspondence(ck, rng, libs):
+    """per-case tie of the loop theorem C10_resolve_function[_checked]: the one-instance hosts of the resolve:<lib> stream and a stream of
+    multi-instance hosts (harness/resolve_sem_corr.py); returns the failures of the multi-instance oracle"""
+    from kyupy import techlib
+    snaps = list(RSNAPS)
+    del RSNAPS[:]
+    n_single = len(snaps)
+    fails = []
+    n_multi = n_fn = n_clean_inst = 0
+    for lib in libs:
+        tl = getattr(techlib, lib)
+        comb, seq = rsc.comb_small(tl), rsc.seq_small(tl)
+        for i in range(ck.scale(14, 200)):
+            try:
+                snap, desc, what, cls = rsc.multi_case(rng, lib, tl, comb, seq, capture_table)
+            except Exception:
+                snap, desc, what, cls = None, {'kind': 'resolve-multi', 'library': lib}, 'raises ' + traceback.format_exc()[-400:], 'raises'
+            ck.count(1, 'resolve-multi:' + lib)
+            n_multi += 1
+            if snap is not None:
+                snaps.append(snap)
+                n_inst = len(desc.get('kinds', []))
+                ck.nontrivial(('rm', lib, tuple(desc.get('kinds', [])), snap['visited']))
+                if snap['visited'] < n_inst:
+                    n_clean_inst += 1
+                if what is None and snap['d22']:
+                    n_fn += 1
+            if what:
+                fails.append((f'resolve-multi:{lib}:{cls}', desc, what))
+    n_d22 = sum(1 for s in snaps if not s['d22'])
+    n_vis = sum(s['visited'] for s in snaps)
+    not_flat = [s for s in snaps if not s['flat']]
+    size = 30
+    parts = [list(range(k, min(k + size, len(snaps)))) for k in range(0, len(snaps), size)]
+    outs = ck.coq_eval_many('resolvesem', [rsc.cases_file([snaps[i] for i in part]) for part in parts], jobs=10, timeout=1200)
+    bad, ran = [], True
+    for part, (ok, out) in zip(parts, outs):
+        pairs = rsc.parse_pairs(out) if ok else None
+        if pairs is None:
+            ran = False
+            bad.append(('coq', out[-300:]))
+            continue
+        bad += [(part[ci], k) for ci, k in pairs]
+    ck.obligation(f'resolve_tlib_cells, loop theorem: on {len(snaps)} compared resolve cases ({n_single} one-instance hosts of the resolve:<lib> stream, '
+                  f'{len(snaps) - n_single} hosts with 2-5 instances of different cells feeding each other, creation order unrelated to the signal flow; '
+                  f'{n_vis} Circuit.substitute calls in all, {n_clean_inst} multi-instance hosts in which a clean-up deleted an instance before its turn) the '
+                  f'model loop resolve_tlib = its trace version resolve_trace = the real Circuit after resolve_tlib_cells with the FULL library (nodes, lines, '
+                  f'io_nodes), every hypothesis checker of C10_resolve_function_checked holds (cinv_b, io_ok_b of the host; lib_ok_sem_b and lib_total_b of '
+                  f'the library table restricted to the kinds that occur; no implementation node carries a name of the full library), resolve_host_ok_b '
+                  f'equals the D22 / port flag computed from the live objects, the decidable conclusions hold (result consistent, io_nodes unchanged, no '
+                  f'library kind left) and the number of substituted instances equals the number of Circuit.substitute calls; the theorem applies to '
+                  f'{len(snaps) - n_d22} cases, {n_d22} fall under D22 (resolve_host_ok_b false)',
+                  ran and not bad and not not_flat and len(snaps) - n_single > 0, 'correspondence', f'failing (case, item): {bad[:6]}')
+    ck.obligation(f'oracle (multi-instance hosts): LogicSim on the resolved host = the host with every library instance evaluated through its '
+                  f'implementation circuit on its own (harness/oracle_net.py, unconnected instance inputs read 0) at every output port and host '
+                  f'state element, ports and names unchanged, no library cell left, result consistent: {n_multi} hosts, function compared on {n_fn}',
+                  not [f for f in fails if ck.known_entry(f[0]) is None] and n_fn > 0, 'oracle', fails[0][2] if fails else '')
+    first = [b for b in bad if b[0] != 'coq'][:3]
+    for ci, k in first:
+        s = snaps[ci]
+        ck.fail('resolve-sem:' + str(k), f'resolve case {ci}: {rsc.CODES.get(k, k)} ({s["desc"].get("library")}, {s["desc"].get("cell") or s["desc"].get("kinds")})',
+                {'component': 'Circuit.resolve_tlib_cells vs Model/CircuitResolveSem.v',
+                 'input': {'kind': 'resolve-sem', 'library': s['desc'].get('library'), 'host': s['host'],
+                           'desc': {k2: v for k2, v in s['desc'].items() if k2 != 'host'}},
+                 'actual': rsc.CODES.get(k, str(k))})
+    if bad and not first:
+        ck.fail('resolve-sem:coq', 'the resolve cases did not evaluate', {'component': 'Model/CircuitResolveSem.v', 'input': {}, 'actual': str(bad[0][1])},
+                found_input=False)
+    for s in not_flat[:2]:
+        ck.fail('resolve-sem:flat', 'an implementation circuit contains a node whose kind is a cell name of the library',
+                {'component': 'kyupy.techlib', 'input': {'kind': 'resolve-sem', 'library': s['desc'].get('library'), 'host': s['host']}, 'actual': 'not flat'})
+    return fails
+
+
 def run(ck):
     from kyupy import techlib
     if THEOREMS:
@@ -509,6 +593,7 @@ def run(ck):
             if what:
                 fails.append((f'resolve:{lib}:{kind}:{desc.get("class", "function" if "raises" not in what else "raises")}', desc, what))
     substitute_sem_correspondence(ck, rng)
+    fails += resolve_sem_correspondence(ck, random.Random(ck.seed * 7919 + 1011), libs)
     unknown = [f for f in fails if ck.known_entry(f[0]) is None]
     ck.obligation('copy / pickle / eliminate_1to1_forks / substitute / resolve_tlib_cells preserve names, order and Boolean function on every '
                   'generated circuit and for every library cell definition (listed known findings excepted)', not unknown, 'correspondence',
@@ -557,6 +642,19 @@ def replay(rp):
         return pairs is None or bool(pairs)
     if inp.get('kind') == 'substitute-sem':
         return ssc.replay_case(inp)
+    if inp.get('kind') == 'resolve-sem':
+        return rsc.replay_case(inp)
+    if inp.get('kind') == 'resolve-multi':
+        tl = getattr(techlib, inp['library'])
+        host = ssc.rebuild(inp['host'], 'host')
+        try:
+            host.resolve_tlib_cells(tl)
+        except Exception:
+            return True
+        from harness import circuit_edit as ce
+        if ce.invariant(host) is not None or any(n.kind in tl.cells for n in host.nodes):
+            return True
+        return rsc.replay_case(inp)
     if inp.get('kind') == 'resolve':
         rng = random.Random(0)
         d, what = resolve_cell(inp['library'], getattr(techlib, inp['library']), inp['cell'], rng)
